@@ -119,7 +119,11 @@ func runDemo(scn, outdir string) int {
 	T := NewTables()
 	base, _ := os.MkdirTemp(scratchBase(), "vdemo")
 	defer os.RemoveAll(base)
-	tr := runScenario(goit, base, T, &s, allObs())
+	obs := allObs()
+	if pid := os.Getenv("VERIF_DEMO_PROP"); pid != "" {
+		obs = obsFor(pid) // observe exactly what the check of that property observes
+	}
+	tr := runScenario(goit, base, T, &s, obs)
 	writeNdjson(filepath.Join(outdir, "trace.ndjson"), tr.Lines)
 	writeJson(filepath.Join(outdir, "tables.json"), T.Dump())
 	fmt.Println("lines", len(tr.Lines))
